@@ -192,13 +192,13 @@ func runProvider(rep *vh.Report, env vh.Env, kind string, i int) {
 	for _, g := range gpool {
 		switch x := r.Intn(100); {
 		case x < 45:
-			d.scriptFill(g, false)
+			d.scriptFill(g, 0)
 			run.update(g)
 		case x < 55:
-			d.scriptFill(g, true)
+			d.scriptFill(g, randErrKind(r))
 			run.update(g)
 		case x < 65:
-			d.scriptFill(g, true, true) // the loop's first fills will fail: the group stays uncached
+			d.scriptFill(g, randErrKind(r), randErrKind(r)) // the loop's first fills will fail: the group stays uncached
 		case x < 75:
 			d.hold(g) // the loop's first fill hangs: the group stays uncached until released
 		}
@@ -206,20 +206,29 @@ func runProvider(rep *vh.Report, env vh.Env, kind string, i int) {
 	n := 5 + r.Intn(5)
 	for k := 0; k < n; k++ {
 		switch x := r.Intn(100); {
-		case x < 50:
+		case x < 46:
 			u, gs := randQ()
 			doAsk(u, gs)
-		case x < 62:
+		case x < 56:
 			mutate()
-		case x < 74:
+		case x < 68:
 			// a refresh, as the periodic tick would do it
 			g := gpool[r.Intn(len(gpool))]
 			d.release(g) // the harness goroutine itself must not wait at a gate
-			d.scriptFill(g, r.Intn(100) < 25)
+			d.scriptFill(g, failIf(r, 35))
 			run.update(g)
-		case x < 80:
-			d.failNextChecks(1)
-		case x < 86:
+			if r.Intn(3) == 0 {
+				run.get(g)
+			}
+		case x < 82:
+			// the next direct check fails; ask right away so that the failure meets a question whose
+			// other groups may well be cached
+			d.failNextCheck(randErrKind(r))
+			if r.Intn(2) == 0 {
+				u, gs := randQ()
+				doAsk(u, gs)
+			}
+		case x < 87:
 			d.hold(gpool[r.Intn(len(gpool))])
 		case x < 92:
 			d.releaseAll()
@@ -239,7 +248,13 @@ func runProvider(rep *vh.Report, env vh.Env, kind string, i int) {
 	}
 	d.releaseAll()
 	stop()
-	if !waitUntil(func() bool { return d.nInflight() == 0 }, watchdog) || !run.drain(gpool) {
+	quiet := waitUntil(func() bool { return d.nInflight() == 0 }, watchdog)
+	if quiet {
+		for _, g := range gpool {
+			run.get(g) // what the cache holds at the end must be a list the directory gave for that group
+		}
+	}
+	if !quiet || !run.drain(gpool) {
 		rep.Inconclusive(kind + ": fills still in flight after Stop within the watchdog")
 		return
 	}
@@ -346,7 +361,7 @@ func judgeProvider(rep *vh.Report, stream string, idx int, kind string, kc *gcpC
 		if len(mine) == 0 {
 			// answered from the member-list cache alone
 			if q.Failed {
-				if q.Err != errDirectory.Error() {
+				if !knownErrText(q.Err) {
 					rep.Inconclusive(kind + ": a question failed for a reason outside the directory: " + q.Err)
 				} else {
 					viol(q, "error-without-directory-error", "question failed though the directory did not fail: "+q.Err, nil, nil)
@@ -401,14 +416,15 @@ func judgeProvider(rep *vh.Report, stream string, idx int, kind string, kc *gcpC
 		}
 		if c.Outcome == "error" {
 			rep.Count(kind+"_direct_errors", 1)
+			rep.Count(kind+"_direct_errors_"+c.ErrKind, 1)
 			if !q.Failed {
-				viol(q, "directory-error-swallowed", "the direct check failed but the question was answered", mine, nil)
+				viol(q, "answer-without-directory-provenance-after-directory-error err="+c.ErrKind, fmt.Sprintf("the direct check failed (%s) but the caller got %q with a nil error", c.ErrKind, q.Ans), mine, candDump())
 			}
 			shape = append(shape, cls+":direct-err")
 			continue
 		}
 		if q.Failed {
-			if q.Err != errDirectory.Error() {
+			if !knownErrText(q.Err) {
 				rep.Inconclusive(kind + ": a question failed for a reason outside the directory: " + q.Err)
 			} else {
 				viol(q, "error-although-directory-answered", "the directory answered but the question failed: "+q.Err, mine, nil)
